@@ -112,6 +112,23 @@ class LockRoles:
                             and v.left.attr in none_attrs:
                         self.fd = v.left.attr
                         self.locked_props.add(f.name)
+        self.locked_prop_missing = False
+        if self.fd is None:
+            # no property reports the descriptor: the descriptor attribute is still the None-initialised attribute that a
+            # method using os.open assigns - the missing / rewritten `is_locked` is then a finding, not a reason to give up
+            cands_ = set()
+            for f in [s for s in u.functions() if s.enclosing_class() is cls and s is not self.init]:
+                if not any(isinstance(x, ast.Attribute) and x.attr == 'open' and isinstance(x.value, ast.Name) and x.value.id == 'os' for x in ast.walk(f.node)):
+                    continue
+                for n in own_nodes(f.node):
+                    if isinstance(n, ast.Assign):
+                        for t_ in n.targets:
+                            if isinstance(t_, ast.Attribute) and isinstance(t_.value, ast.Name) and t_.value.id == 'self' and t_.attr in none_attrs \
+                                    and not (isinstance(n.value, ast.Constant) and n.value.value is None):
+                                cands_.add(t_.attr)
+            if len(cands_) == 1:
+                self.fd = cands_.pop()
+                self.locked_prop_missing = True
         # CNT: int attribute initialised to 0 and augmented in acquire
         self.cnt = None
         acq_incs = []
@@ -316,6 +333,16 @@ def _rule_with_protocol(ctx: Ctx, r: 'LockRoles', enter_rule: Optional[str], exi
             elif isinstance(v, ast.Name) and v.id in got:
                 res.append(y)
         return fail, res, got
+    def _one_level(g, f, rels):
+        # leaving one with-block gives back one level: release() is called without `force` (a forced release inside a nested
+        # with-block of a re-entrant lock drops the lock the outer block still relies on)
+        for rc in rels:
+            forced = list(rc.ast.args) + [k.value for k in rc.ast.keywords if k.arg in (None, 'force')]
+            ok1 = all(isinstance(a_, ast.Constant) and not a_.value for a_ in forced)
+            ctx.check(exit_rule, f'{f.qualname}: {norm(rc.ast)} gives back exactly one level', g.loc(rc), ok1, 'release() without force',
+                      'the with-statement / context manager can force the release: for a re-entrant lock an inner block (say, one left by an '
+                      'exception) drops the OS lock and every level while an outer block of the same thread is still inside',
+                      construct=construct_key(f.qualname, 'forced release on exit'))
     if enter_rule:
         for f in enters + ctxs:
             g = build(f, p, inline_methods=True)
@@ -344,6 +371,7 @@ def _rule_with_protocol(ctx: Ctx, r: 'LockRoles', enter_rule: Optional[str], exi
             ctx.check(exit_rule, f'{f.qualname}: every normal path calls release()', f'{FILE}:{f.lineno}', w is None and bool(rels),
                       'leaving the with-block gives the lock back', 'a path through __exit__ does not release: the lock stays held after the with-block',
                       witness=render(g, w), construct=construct_key(f.qualname, 'exit without release'))
+            _one_level(g, f, rels)
         for f in ctxs:
             g = build(f, p, inline_methods=True)
             rels = calls_of(g, r.release)
@@ -361,6 +389,7 @@ def _rule_with_protocol(ctx: Ctx, r: 'LockRoles', enter_rule: Optional[str], exi
                     return e.label != 'true'
                 return True
             w = must_pass(g, [], [g.exit, g.raise_exit], rels, start_edges=starts, edge_ok=not_refused if res else None) if starts else None
+            _one_level(g, f, rels)
             ctx.check(exit_rule, f'{f.qualname}: after the yield every exit (normal, exception thrown in by the with-body) passes release()',
                       f'{FILE}:{f.lineno}', w is None and bool(rels) and bool(starts),
                       'released in a finally', 'an exception in the with-body (or its normal end) leaves the lock held',
@@ -449,10 +478,47 @@ def c02(ctx: Ctx) -> None:
                 v = n.meta.get('value')
                 is_none = isinstance(v, ast.Constant) and v.value is None
                 exp = expected.get(f.qualname) if f.unit in r.units else None
+                if exp is None and f.name == '__setstate__' and f.unit in r.units:
+                    exp = 'none'        # the unpickling side of object creation: like __init__, it may only say "nothing held"
                 ok = (exp == 'none' and is_none) or (exp == 'fd' and not is_none)
                 ctx.check('C02-R3', f'{f.qualname}: {norm(n.meta.get("stmt") or n.ast)}', g.loc(n), ok,
                           'expected writer', 'unexpected writer of the descriptor attribute (is_locked is the success oracle)',
                           construct=construct_key(f.qualname, 'writes', r.fd, v if v is not None else 'swap'))
+    # ... and nothing writes the instance state wholesale around that rule: `self.__dict__.update(state)` in a __setstate__ (copy /
+    # pickle support), `vars(self).update`, `setattr(self, name, ...)` carry a *held* descriptor and counter over into an object
+    # whose thread lock is fresh - unless the method then resets both
+    for f in [f_ for uu in r.units for f_ in uu.functions() if f_.enclosing_class() is not None and f_.enclosing_function() is None]:
+        g = build(f, p)
+        whole = []
+        for n in g.nodes:
+            if n.kind != 'call':
+                continue
+            fn_ = n.ast.func
+            if isinstance(fn_, ast.Attribute) and fn_.attr in ('update', '__setitem__', 'setdefault') and (
+                    (isinstance(fn_.value, ast.Attribute) and fn_.value.attr == '__dict__' and isinstance(fn_.value.value, ast.Name) and fn_.value.value.id == 'self')
+                    or (isinstance(fn_.value, ast.Call) and isinstance(fn_.value.func, ast.Name) and fn_.value.func.id == 'vars'
+                        and fn_.value.args and isinstance(fn_.value.args[0], ast.Name) and fn_.value.args[0].id == 'self')):
+                whole.append(n)
+            elif isinstance(fn_, ast.Name) and fn_.id == 'setattr' and n.ast.args and isinstance(n.ast.args[0], ast.Name) and n.ast.args[0].id == 'self' \
+                    and not (len(n.ast.args) > 1 and isinstance(n.ast.args[1], ast.Constant) and n.ast.args[1].value not in (r.fd, r.cnt)):
+                whole.append(n)
+            elif isinstance(fn_, ast.Attribute) and fn_.attr == '__setattr__' and n.ast.args and isinstance(n.ast.args[0], ast.Name) and n.ast.args[0].id == 'self':
+                whole.append(n)
+        whole += [n for n in g.nodes if n.kind == 'store_attr' and n.meta['attr'] == '__dict__']
+        for n in whole:
+            resets_fd = [x for x in g.nodes if x.kind == 'store_attr' and x.meta['attr'] == r.fd and isinstance(x.meta.get('value'), ast.Constant)
+                         and x.meta['value'].value is None]
+            resets_cnt = [x for x in g.nodes if x.kind == 'store_attr' and x.meta['attr'] == r.cnt and isinstance(x.meta.get('value'), ast.Constant)
+                          and x.meta['value'].value == 0]
+            st_ = [e for e in g.succ[n.id] if e.label != 'exc']
+            w1 = must_pass(g, [], [g.exit], resets_fd, start_edges=st_, edge_ok=lambda e: e.label != 'exc') if st_ else None
+            w2 = must_pass(g, [], [g.exit], resets_cnt, start_edges=st_, edge_ok=lambda e: e.label != 'exc') if st_ else None
+            ctx.check('C02-R3', f'{f.qualname}: {norm(n.ast)[:60]} writes the whole instance state', g.loc(n),
+                      w1 is None and w2 is None and bool(resets_fd) and bool(resets_cnt),
+                      'followed by a reset of the descriptor and the counter: the new object holds nothing',
+                      'the descriptor and the depth counter of a (possibly held) lock are copied into another object (copy / pickle support): '
+                      'that object says is_locked with a free thread lock, its acquire() takes the fast path and succeeds without the OS lock',
+                      witness=render(g, w1 or w2), construct=construct_key(f.qualname, 'wholesale state write'))
     # store in the OS acquire helper: only after normal completion of OSLOCK(fd) with the same fd
     oslocks = [n for n in ga.nodes if n.kind == 'call' and callee_info(ga, n.ast).get('method') == r.oslock_name
                and callee_info(ga, n.ast)['kind'] == 'package']
@@ -506,6 +572,7 @@ def c02(ctx: Ctx) -> None:
     # just found importable; whatever is left gets a class that refuses (a class that "locks" with a module that is None
     # fails on first use, one that returns without locking reports locks nobody holds)
     _rule_platform_alias(ctx, r)
+    _rule_locked_property(ctx, r, 'C02-R1')
     # R6
     gr = build(r.release, p, inline_methods=True)
     tlrel = [n for n in gr.nodes if n.kind == 'call' and isinstance(n.ast.func, ast.Attribute)
@@ -529,6 +596,16 @@ def c02(ctx: Ctx) -> None:
         callee_info(g2, n.ast).get('name') == 'os.close' or callee_info(g2, n.ast).get('method') == r.osunlock_name)]
     ok = bool(swapped) and len(uses) >= 2 and all(
         n.ast.args and isinstance(n.ast.args[0], ast.Name) and n.ast.args[0].id in swapped for n in uses)
+    # ... and the lock is given up by *unlocking*, not merely by closing: flock belongs to the open file description, which a
+    # forked child (or a dup) shares - a bare close leaves the lock held for as long as any sharer lives
+    unl_ = [n for n in g2.nodes if n.kind == 'call' and callee_info(g2, n.ast).get('method') == r.osunlock_name and callee_info(g2, n.ast)['kind'] == 'package']
+    cls_ = [n for n in g2.nodes if n.kind == 'call' and callee_info(g2, n.ast).get('name') == 'os.close']
+    wu_ = must_pass(g2, [g2.entry], cls_, unl_, edge_ok=lambda e: e.label != 'exc') if cls_ else None
+    ctx.check('C02-R6', f'{r.os_release.name}: every path to os.close() has called {r.osunlock_name}() first', f'{FILE}:{r.os_release.lineno}',
+              wu_ is None and bool(unl_) and bool(cls_), 'explicit unlock, then close',
+              'the descriptor can be closed without the explicit unlock: the OS lock survives in every process that shares the open file '
+              'description (a child forked while the lock was held), so the lock file stays locked after release()',
+              witness=render(g2, wu_), construct=construct_key(r.os_release.qualname, 'close without unlock'))
     ctx.check('C02-R6', f'unlock/close operate on the swapped-out descriptor {sorted(swapped)}',
               f'{FILE}:{r.os_release.lineno}', ok, 'both calls take the descriptor that was held',
               'unlock/close do not (both) apply to the descriptor that was held',
@@ -588,6 +665,27 @@ def c02(ctx: Ctx) -> None:
               'the path always names the inode the holder locked',
               'after an unlink the holder keeps its lock on the orphaned inode while the next contender creates and locks a fresh file: two holders',
               construct=construct_key(FILE, 'unlinks lock file', sorted({h[1] for h in hits})))
+    # ... and the path that is opened is the path the caller named: a textual rewrite (normpath / abspath collapse `dir/..` without
+    # looking at symlinks, case folding, stripping) can make two spellings of one file two different lock files
+    opens_ = []
+    for f in [f_ for uu in r.units for f_ in uu.functions() if f_.enclosing_class() is not None]:
+        for x in own_nodes(f.node):
+            if isinstance(x, ast.Call) and Resolver(f).path(x.func) == 'os.open' and x.args:
+                opens_.append((f, x))
+    path_attrs = {a0.attr for _, x in opens_ for a0 in [x.args[0]] if isinstance(a0, ast.Attribute) and isinstance(a0.value, ast.Name) and a0.value.id == 'self'}
+    IDENT = {'os.fspath', 'os.fsdecode', 'os.fsencode', 'builtins.str', 'os.path.realpath', 'os.path.expanduser', 'os.path.expandvars', 'pathlib.Path'}
+    for n in own_nodes(r.init.node):
+        if isinstance(n, (ast.Assign, ast.AnnAssign)) and getattr(n, 'value', None) is not None:
+            tg = n.targets[0] if isinstance(n, ast.Assign) else n.target
+            if isinstance(tg, ast.Attribute) and tg.attr in path_attrs:
+                v = n.value
+                while isinstance(v, ast.Call) and Resolver(r.init).path(v.func) in IDENT and len(v.args) == 1 and not v.keywords:
+                    v = v.args[0]
+                ok = isinstance(v, ast.Name) and v.id in r.init.params
+                ctx.check('C02-R9', f'self.{tg.attr} = {norm(n.value)}', f'{FILE}:{n.lineno}', ok, 'the path as given (or resolved through the file system)',
+                          'the lock path is rewritten textually before it is opened: two spellings of the same file can end up as two lock files '
+                          '(normpath / abspath drop `link/..` although `link` is a symlink), and flock only excludes contenders on the same inode',
+                          construct=construct_key(r.init.qualname, 'lock path rewritten', n.value))
     # R8: a function that acquires and releases may release only what it acquired
     for f in p.all_functions():
         if f in (r.acquire, r.release) or f.unit not in r.units:
@@ -644,6 +742,15 @@ def c02(ctx: Ctx) -> None:
                   'FileLock object in the process was handed that number in between, the second close drops that object\'s OS lock while it '
                   'still reports is_locked', construct=construct_key(f.qualname, 'closes descriptor'))
     r.publish(ctx)
+
+
+def _rule_locked_property(ctx: Ctx, r: 'LockRoles', rule: str) -> None:
+    """`is_locked` is true exactly while the descriptor is held: some property of the class returns `self.FD is not None`."""
+    ctx.check(rule, f'locked property: {sorted(r.locked_props) or None} reports `self.{r.fd} is not None`', f'{FILE}:{r.init.lineno}',
+              not r.locked_prop_missing and bool(r.locked_props), 'is_locked is the descriptor state',
+              f'no property of the lock class returns `self.{r.fd} is not None`: is_locked (and the fast path of acquire / the no-op test of '
+              'release that read it) no longer says whether this object holds the OS lock - e.g. a counter-based answer is true for a thread '
+              'that has only taken the in-process lock', construct=construct_key(r.cls.qualname, 'locked property'))
 
 
 def _rule_platform_alias(ctx: Ctx, r: 'LockRoles') -> None:
@@ -971,6 +1078,7 @@ def c12(ctx: Ctx) -> None:
     ctx.assumptions += ['precondition of every method: counter == depth of the thread lock held by the calling thread (c), '
                         'and c >= 1 whenever the caller holds the lock; release is called by the acquiring thread']
     ctx.rule('C12-R14', '__exit__ releases on every path; acquire_ctx releases on every exit after its yield', 1)
+    _rule_locked_property(ctx, r, 'C12-R1')
     ctx.rule('C12-R13', 'the outermost release (c == 1) and release(force=True) at any depth end with the OS lock dropped, counter 0, thread lock free', 2)
     ctx.rule('C12-R1', 'balance: on every exit of acquire/release, counter - depth(thread lock) = 0; '
                        'acquire: False/raise leave both unchanged, True adds one to both; '
